@@ -16,8 +16,10 @@ CLAIM = ("The emitted bash script of every generated grammar is sourced in a rea
          "stripping up to the last word-break character. Out-of-class command lines (two readings of a word, non-prefix-free word "
          "expressions) are recognised by the spec and skipped. Two recorded defects of the template are recognised from the spec's "
          "lenient answers; anything else is a violation.")
-NOTE = ("Translation validation per command line; the theorem C01_model (BashRt model of the template = Spec.Complete on in-class "
-        "grammars) is open. Trusted: the bash runner stub (bash-completion's _get_comp_words_by_ref is not installed), probe functions, "
+NOTE = ("Translation validation per command line. Proved over the model of the bash template (Model/BashRt.lean, compared with the real "
+        "bash on every explored command line): template_offers_extend (every collected candidate extends the typed text, for all tables / "
+        "states / command outputs) and template_unmatched_silent; the theorem C01_model (BashRt model of the template = Spec.Complete on "
+        "in-class grammars) is open. Trusted: the bash runner stub (bash-completion's _get_comp_words_by_ref is not installed), probe functions, "
         "Spec.Complete itself (the executable statement of the property, DESIGN.md Appendix D).")
 TECHNIQUE = "real bash execution of the emitted script against the executable Lean spec of completion (Spec.Complete) over the grammar's meaning"
 DESIGN_REF = "§3 C01, Appendix D"
